@@ -181,7 +181,7 @@ def finish(prop, tier, seed, level, results, dead, t0, rule, min_nontrivial=2, a
     mon = collections.Counter()
     for r in results:
         for k, v in (r.get("mon") or {}).items():
-            mon[k] += v
+            mon[k] = max(mon[k], v) if k.startswith("max_") else mon[k] + v
     tables = collections.Counter()
     for r in results:
         for t in r.get("tags") or []:
